@@ -326,23 +326,28 @@ def check_depth(ctx, depth):
             flag('idle', 'from %s complete falls without a trigger' % m.show(s))
         if obs(s, 0)[SAMPLING] != 0:
             flag('sampling', 'sampling is high in the quiescent state %s' % m.show(s))
-        # one capture: every trigger pattern after the triggering cycle
-        frontier = {m.step(s, 1)[0]}
-        trace = []          # per cycle (k >= 1): the common observation
+        # one capture: the canonical run keeps trigger low after the triggering cycle; `frontier` holds the states reached by all
+        # other trigger patterns and must stay observationally equal to it until the capture is over
+        canon = m.step(s, 1)[0]
+        frontier = {canon}
+        trace = []          # per cycle k >= 1: observation of the canonical run
         ended = False
         for k in range(1, 3 * depth + 10):
+            oc = obs(canon, 0)
             os_ = {obs(c, t) for c in frontier for t in (0, 1)}
             qs = {quiescent(c) for c in frontier}
-            if len(os_) != 1 or len(qs) != 1:
+            if os_ != {oc} or qs != {quiescent(canon)}:
                 flag('immune', 'capture started from %s: in cycle %d after the trigger the outputs (en, addr, complete, '
-                     'sampling) depend on later trigger activity: %s in states %s' % (
+                     'sampling) depend on trigger activity during the capture: %s in states %s' % (
                          m.show(s), k, sorted(os_), sorted(m.show(c) for c in frontier)[:4]))
-            if qs == {True}:
+                frontier = {canon}
+            if quiescent(canon):
                 ended = True
                 break
-            trace.append(min(os_))
+            trace.append(oc)
             frontier = {m.step(c, t)[0] for c in frontier for t in (0, 1)}
             ctx.need(len(frontier) <= MAX_FRONTIER, 'small set of control states per capture cycle')
+            canon = m.step(canon, 0)[0]
         if not ended:
             flag('count', 'capture started from %s does not end within %d cycles' % (m.show(s), 3 * depth + 9))
             continue
@@ -365,7 +370,7 @@ def check_depth(ctx, depth):
             if nos:
                 flag('sampling', 'capture started from %s: sampling is low in write cycle(s) %s' % (m.show(s), _short(nos)))
         # after the capture: complete within two cycles, as long as no new trigger arrives
-        ends = set(frontier)
+        ends = {canon}
         for _ in range(2):
             ends = {m.step(c, 0)[0] for c in ends}
         late = [c for c in ends if obs(c, 0)[COMPLETE] != 1]
@@ -428,8 +433,7 @@ def check_symbolic(ctx):
     ctx.ob('C56.trigger-scope', '%s.trigger.readers' % CLS, not bad, bad[0].loc if bad else fsm.loc,
            'self.trigger may steer the capture only in the idle state; read during sampling by: %s' % [q.fmt(b) for b in bad[:3]])
     # the idle state leaves exactly on trigger
-    for_trig = [e for e in fsm.out_edges(idle)]
-    ctx.need(for_trig, 'an edge out of the idle state')
+    ctx.need(fsm.out_edges(idle), 'an edge out of the idle state')
     go = state_outcomes(fsm, idle, {TRIG: True})
     stay = state_outcomes(fsm, idle, {TRIG: False})
     ctx.ob('C56.start', '%s.idle.exit-on-trigger' % CLS, None not in go and idle not in go, fsm.state_loc.get(idle),
@@ -439,23 +443,25 @@ def check_symbolic(ctx):
     # the end of the capture is decided by the write counter and the configured depth
     back = [e for e in fsm.edges if e.dst == idle and e.src != idle]
     ctx.need(back, 'an edge back to the idle state')
-    for n, e in enumerate(sorted(back, key=lambda e: (fsm.states.index(e.src), e.order))):
-        rd = reads(e)
-        ctx.ob('C56.stop', '%s.sampling-exit#%d' % (CLS, n), pos in rd and 'self.sample_depth' in rd, e.loc,
-               'returning to idle must be decided by the write position (%s) and sample_depth: %s' % (pos, q.fmt(e)))
-    rc = q.raises(ir, 'self.complete')
-    ctx.need(rc, 'a site raising complete')
 
     def by_depth(item):
         rd = reads(item)
         return pos in rd and 'self.sample_depth' in rd
-    for n, a in enumerate(rc):
+    loose = [e for e in back if not by_depth(e)]
+    ctx.ob('C56.stop', '%s.sampling-exit' % CLS, not loose, (loose or back)[0].loc,
+           'returning to idle must be decided by the write position (%s) and sample_depth: %s' % (
+               pos, [q.fmt(e) for e in loose[:3]]))
+    rc = q.raises(ir, 'self.complete')
+    ctx.need(rc, 'a site raising complete')
+    loose = []
+    for a in rc:
         st = a.state[1] if a.state is not None and a.state[0] == fsm.id else None
         entries = [e for e in fsm.in_edges(st) if e.src != st] if st is not None else []
-        ok = st is not None and st != idle and (by_depth(a) or (entries and all(by_depth(e) for e in entries)))
-        ctx.ob('C56.stop', '%s.complete.raise#%d' % (CLS, n), ok, a.loc,
-               'complete must be raised outside the idle state and only under (or after) a comparison of the write '
-               'position (%s) with sample_depth: %s' % (pos, q.fmt(a)))
+        if not (st is not None and st != idle and (by_depth(a) or (entries and all(by_depth(e) for e in entries)))):
+            loose.append(a)
+    ctx.ob('C56.stop', '%s.complete.raise' % CLS, not loose, (loose or rc)[0].loc,
+           'complete must be raised outside the idle state and only under (or after) a comparison of the write '
+           'position (%s) with sample_depth: %s' % (pos, [q.fmt(a) for a in loose[:3]]))
 
 
 # ------------------------------------------------------------------------------------------------ wiring
@@ -487,9 +493,6 @@ def check_wiring(ctx):
     wd = r.wport.kwargs.get('domain', 'sync')
     ctx.ob('C56.buffer', '%s.write-port.domain' % CLS, wd == fsm.domain, r.wport.loc,
            'the write port (domain %r) must be clocked in the domain of the capture FSM (%r)' % (wd, fsm.domain))
-    md = r.mem.depth
-    ctx.ob('C56.buffer', '%s.buffer.depth' % CLS, isinstance(md, E) and md.canon() in ('param:sample_depth', 'self.sample_depth'),
-           r.mem.loc, 'the sample memory depth must be sample_depth (found %s)' % (md.canon() if isinstance(md, E) else md))
 
 
 def data_delay(ctx, pre):
